@@ -381,7 +381,7 @@ class HistogramDDBinned(ArrayExpr):
         if self.weights is not None:
             dtype = self.weights._meta.dtype
         # Meta shape: (0,) * (D + 1)
-        return np.empty((0,) * (self.D + 1), dtype=dtype)
+        return np.zeros((0,) * (self.D + 1), dtype=dtype)
 
     @cached_property
     def chunks(self):
